@@ -57,7 +57,10 @@ class CaseGen:
         eff = mt if mt else NATIVE[var]
         need_convert = 1 if eff != NATIVE[var] else 0
         need_swap = 0 if (var == 0 and eff == 5) else 1
-        bl = rng.choice([0, 0, 1, 2])
+        # buffer layout: 0 predefined type, 1 MPI_DATATYPE_NULL, 2 vector with gaps, 4 contiguous(4) with bufcount = n/4,
+        # 5 resized element type (gaps), 6 vector of contiguous(2) (nested, gaps), 7 vector(4,1,2) with bufcount = n/4 > 1,
+        # 8 contiguous(2, contiguous(2)) with bufcount = n/4  (see harness/c13_buf.c laypos)
+        bl = rng.choice([0, 0, 1, 2, 4, 4, 5, 6, 7, 8])
         if bl == 1 and mt != 0:
             bl = 0
         api = 'a'
@@ -75,7 +78,9 @@ class CaseGen:
         else:
             target = rng.choice([8, 24, 64, 1024, 4088, 4096, 4104, 8192])
             cnt = max(1, target // xsz)
-            if op in 'IBG' and rng.chance(1, 5):
+            if bl in (4, 6, 7, 8):
+                cnt = max(4, (cnt + 3) // 4 * 4)        # whole instances of the derived type
+            if op in 'IBG' and rng.chance(1, 5) and bl in (0, 1, 2, 5):
                 api = 'n'; nsub = 2
                 c1 = max(1, cnt // 2); c2 = max(1, cnt - c1)
                 s1 = self.region(var, c1); s2 = self.region(var, c2) if s1 is not None else None
@@ -90,7 +95,7 @@ class CaseGen:
                 subs = [([s], [cnt])]
                 nelems = cnt
         imap = 1 if api == 'm' else 0
-        contig = 0 if bl == 2 else 1
+        contig = 1 if bl in (0, 1, 4, 8) else 0
         nbytes = nelems * xsz
         kind = {'P': 0, 'R': 5, 'G': 5}.get(op)
         if op == 'I':
@@ -223,12 +228,23 @@ def fixed_cases(first):
     M = [dict(op='CASE'), dict(op='G', h=0, nbytes=128, spec_err=0, spec_usage=None, nonlifo=False),
          dict(op='W', spec_err=0, n=1, spec_usage=None, nonlifo=False), dict(op='END')]
     cases.append((L, M, {}))
-    # the swap-back exits: > 4096 bytes in place, auto hint: blocking put, iput + wait, iput + cancel
-    L = ['CASE %d 0' % (first + 2), 'P 0 0 0 1 1 0 8192 2 a 0 0 1 0 2048', 'I 1 1 0 1 1 0 8192 2 a 0 0 1 2048 2048',
-         'I 2 1 0 1 1 0 8192 4 a 0 0 1 0 1024', 'W 1 1', 'X 1 2', 'END']
-    M = [dict(op='CASE'), dict(op='P', h=0, nbytes=8192, spec_err=0, spec_usage=None, nonlifo=False),
-         dict(op='I', h=1, nbytes=8192, spec_err=0, spec_usage=None, nonlifo=False), dict(op='I', h=2, nbytes=8192, spec_err=0, spec_usage=None, nonlifo=False),
-         dict(op='W', spec_err=0, n=1, spec_usage=None, nonlifo=False), dict(op='X', spec_err=0, n=1, spec_usage=None, nonlifo=False), dict(op='END')]
+    # the swap-back exits with > 4096 bytes in place (auto hint): blocking put, iput + wait, iput + cancel, each with a
+    # predefined buffer type and with a CONTIGUOUS DERIVED buffer type (bufcount = nelems/4 != nelems; seeded change C13-2)
+    def mm(op, h):
+        return dict(op=op, h=h, nbytes=8192, spec_err=0, spec_usage=None, nonlifo=False)
+    L = ['CASE %d 0' % (first + 2), 'P 0 0 0 1 1 0 8192 2 a 0 0 1 0 2048', 'P 3 0 0 1 1 0 8192 2 a 0 4 1 4096 2048',
+         'P 5 0 0 1 1 0 8192 4 a 0 8 1 1024 1024',
+         'I 1 1 0 1 1 0 8192 2 a 0 0 1 2048 2048', 'I 4 1 0 1 1 0 8192 2 a 0 8 1 6144 2048',
+         'I 2 1 0 1 1 0 8192 4 a 0 0 1 0 1024', 'I 6 1 0 1 1 0 8192 4 a 0 4 1 2048 1024', 'W 2 1 4', 'X 2 2 6', 'END']
+    M = [dict(op='CASE'), mm('P', 0), mm('P', 3), mm('P', 5), mm('I', 1), mm('I', 4), mm('I', 2), mm('I', 6),
+         dict(op='W', spec_err=0, n=2, spec_usage=None, nonlifo=False), dict(op='X', spec_err=0, n=2, spec_usage=None, nonlifo=False), dict(op='END')]
+    # the same with hint nc_in_place_swap=enable and a small request (64 bytes)
+    L2 = ['CASE %d 1' % (first + 3), 'P 0 0 0 1 1 0 64 2 a 0 4 1 0 16', 'P 1 0 0 1 1 0 64 1 a 0 8 1 0 32',
+          'I 2 1 0 1 1 0 64 4 a 0 4 1 0 8', 'W 1 2', 'END']
+    M2 = [dict(op='CASE'), dict(op='P', h=0, nbytes=64, spec_err=0, spec_usage=None, nonlifo=False),
+          dict(op='P', h=1, nbytes=64, spec_err=0, spec_usage=None, nonlifo=False), dict(op='I', h=2, nbytes=64, spec_err=0, spec_usage=None, nonlifo=False),
+          dict(op='W', spec_err=0, n=1, spec_usage=None, nonlifo=False), dict(op='END')]
+    cases.append((L2, M2, {}))
     cases.append((L, M, {}))
     return cases
 
@@ -358,7 +374,7 @@ def run_check(tier, seed):
             hx = ''.join('%02x' % rng.below(256) for _ in range(nb)) or '00'
             lines.append('S %d %d %s' % (es, ne, hx))
         caseno = 0
-        for L, M, fl in fixed_cases(0):
+        for L, M, fl in sorted(fixed_cases(0), key=lambda c: int(c[0][0].split()[1])):
             lines += L; metas.append(M); caseno += 1
         for c in range(ncases):
             g = CaseGen(rng, caseno, lifo=rng.chance(1, 2)); caseno += 1
